@@ -315,27 +315,38 @@ def merged_ns(parent_ns, child_ns):
 
 class _DescNs:
     """Predicate for a proper descendant of an attached child: bindings for
-    prefixes the child did not gain are unchanged; gained prefixes are adopted
-    (the statement speaks of the child only)."""
+    prefixes the child did not gain are unchanged. A gained prefix must be
+    visible on the descendant as well (attach establishes "a node's prefixes
+    include its parent's" for the whole tree, which is what C06 quantifies
+    over, and the child that gained it is the descendant's ancestor); which URI
+    it is bound to is left open between the one pushed down from the new parent
+    and a binding the descendant had of its own (the statement says "own
+    bindings win" of the child only)."""
 
-    def __init__(self, before, gained):
+    def __init__(self, before, gained, parent_ns=()):
         self.before = dict(before)
         self.gained = set(gained)
+        self.parent = dict(parent_ns)
 
     def __call__(self, got):
         if got and got[0] in ("notdict", "unsortable"):
             return False
         g = dict(got)
-        for k in set(g) | set(self.before):
+        for k in set(g) | set(self.before) | self.gained:
             if k in self.gained:
+                if k not in g:
+                    return False
+                if g[k] != self.parent.get(k, _MISSING) and g[k] != self.before.get(k, _MISSING):
+                    return False
                 continue
             if g.get(k, _MISSING) != self.before.get(k, _MISSING):
                 return False
         return True
 
     def __repr__(self):
-        return "unchanged-except-gained(%r, gained=%r)" % (sorted(self.before.items(), key=repr),
-                                                           sorted(self.gained, key=repr))
+        return "unchanged-except-gained(%r, gained=%r from %r)" % (
+            sorted(self.before.items(), key=repr), sorted(self.gained, key=repr),
+            sorted(self.parent.items(), key=repr))
 
 
 _MISSING = ("<missing>",)
@@ -416,7 +427,7 @@ class AddChild:
         e.want(c, NS, m)
         if gained:
             for d in pre.subtree(c)[1:]:
-                e.want(d, NS, _DescNs(pre.cells[d][NS], gained))
+                e.want(d, NS, _DescNs(pre.cells[d][NS], gained, pns))
         e.notes["gained"] = gained
         return e
 
